@@ -1,5 +1,6 @@
 import LentilVerif.Lemmas.Fft
 import LentilVerif.Lemmas.FftDft
+import LentilVerif.Lemmas.Pad
 import Mathlib.Analysis.Real.Sqrt
 import LentilVerif.Lemmas.FftComplex
 import Mathlib.Tactic.FieldSimp
@@ -96,6 +97,60 @@ theorem scratch_transparent (one : K) (fs : List (Fld K)) (W0 W1 S0 S1 : Int) (s
   exact scratch_transparent_grid one fs W0 W1 S0 S1 scr scr' _ _ (emod_range _ _ hS.1) (emod_range _ _ hS.2)
 
 end generic
+
+/-- **A scratch buffer does not change the result.** For a wavefront no larger than the grid (whose fields lie on its
+canvas), the call with a sufficient scratch buffer — of any size, with any prior content — returns the same reported
+wavelength, grid and output shape as the call without scratch, and the same value at every sample of the output field. -/
+theorem scratch_equals_no_scratch {K R : Type} [Add R] [Sub R] [Mul R] [Neg R] [Div R] [RealLike R] [FftLike R]
+    [Semiring K] [CxLike K R]
+    (fs : List (Fld K)) (W0 W1 : Int) (dx0 dx1 du0 du1 wl z : R) (os : Int) (shape : Option (Int × Int)) (scr : Arr K)
+    (hs : scr.s0 ≥ (fftShape dx0 dx1 du0 du1 z wl os).1 ∧ scr.s1 ≥ (fftShape dx0 dx1 du0 du1 z wl os).2)
+    (hW : 0 ≤ W0 ∧ W0 ≤ (fftShape dx0 dx1 du0 du1 z wl os).1 ∧ 0 ≤ W1 ∧ W1 ≤ (fftShape dx0 dx1 du0 du1 z wl os).2)
+    (hfit : ∀ f ∈ fs, f.within W0 W1)
+    (lam : R) (S0 S1 : Int) (so : Int × Int) (g : Fld K)
+    (h : propagateFft 1 fs false W0 W1 dx0 dx1 du0 du1 wl z os shape none = FftOut.ok lam S0 S1 so g) :
+    ∃ g' : Fld K, propagateFft 1 fs false W0 W1 dx0 dx1 du0 du1 wl z os shape (some scr) = FftOut.ok lam S0 S1 so g' ∧
+      g'.o0 = g.o0 ∧ g'.o1 = g.o1 ∧ ∀ u v, g'.arr.get u v = g.arr.get u v := by
+  have hsm : scratchTooSmall (some scr) (fftShape dx0 dx1 du0 du1 z wl os) = false := by
+    simp only [scratchTooSmall, Bool.not_eq_false', Bool.and_eq_true, decide_eq_true_eq]; exact hs
+  by_cases hb : shapeTooBig shape (fftShape dx0 dx1 du0 du1 z wl os) os = true
+  · simp only [propagateFft, Bool.false_eq_true, if_false, hb, if_true] at h; cases h
+  simp only [propagateFft, Bool.false_eq_true, if_false, hb, scratchTooSmall, FftOut.ok.injEq] at h
+  obtain ⟨hl, h0, h1, hso, hg⟩ := h
+  refine ⟨_, by simp only [propagateFft, Bool.false_eq_true, if_false, hb, hsm, FftOut.ok.injEq]; exact ⟨hl, h0, h1, hso, rfl⟩, ?_, ?_, ?_⟩
+  · rw [← hg]
+  · rw [← hg]
+  · intro u v
+    rw [← hg]
+    by_cases hS : 0 < (fftShape dx0 dx1 du0 du1 z wl os).1 ∧ 0 < (fftShape dx0 dx1 du0 du1 z wl os).2
+    · have hsh : ∀ s : Option (Arr K), (fftGrid 1 fs W0 W1 (fftShape dx0 dx1 du0 du1 z wl os).1 (fftShape dx0 dx1 du0 du1 z wl os).2 s).s0
+            = (fftShape dx0 dx1 du0 du1 z wl os).1 ∧
+          (fftGrid 1 fs W0 W1 (fftShape dx0 dx1 du0 du1 z wl os).1 (fftShape dx0 dx1 du0 du1 z wl os).2 s).s1
+            = (fftShape dx0 dx1 du0 du1 z wl os).2 := by
+        intro s; cases s with
+        | none => exact ⟨rfl, rfl⟩
+        | some s => exact foldInsert_shape fs (zeroedCorner s _ _) 1
+      simp only [fft2c, fft2Ortho, (hsh none).1, (hsh none).2, (hsh (some scr)).1, (hsh (some scr)).2]
+      congr 1
+      apply sumRange_congr; intro b _
+      congr 1
+      apply sumRange_congr; intro a _
+      congr 1
+      exact scratch_eq_pad fs W0 W1 _ _ scr hW hfit _ _ (emod_range _ _ hS.1) (emod_range _ _ hS.2)
+    · -- an empty grid: both transforms are empty sums
+      have hsh : ∀ s : Option (Arr K), (fftGrid 1 fs W0 W1 (fftShape dx0 dx1 du0 du1 z wl os).1 (fftShape dx0 dx1 du0 du1 z wl os).2 s).s0
+            = (fftShape dx0 dx1 du0 du1 z wl os).1 ∧
+          (fftGrid 1 fs W0 W1 (fftShape dx0 dx1 du0 du1 z wl os).1 (fftShape dx0 dx1 du0 du1 z wl os).2 s).s1
+            = (fftShape dx0 dx1 du0 du1 z wl os).2 := by
+        intro s; cases s with
+        | none => exact ⟨rfl, rfl⟩
+        | some s => exact foldInsert_shape fs (zeroedCorner s _ _) 1
+      simp only [fft2c, fft2Ortho, (hsh none).1, (hsh none).2, (hsh (some scr)).1, (hsh (some scr)).2]
+      congr 1
+      apply sumRange_congr; intro b hb'
+      congr 1
+      apply sumRange_congr; intro a ha'
+      exfalso; apply hS; constructor <;> omega
 
 /-- **Isotropic sampling: at the reported wavelength, alpha = 1/S on both axes.** If `dx0·du0 = dx1·du1` and the grid is
 `S x S`, the DFT sampling ratio computed with the reported propagation wavelength is exactly `1/S` per axis. -/
